@@ -647,30 +647,34 @@ def ens_build(cfg, kind, nested, mapper):
     from mystic.solvers import LatticeSolver, BuckshotSolver, NelderMeadSimplexSolver, PowellDirectionalSolver
     from mystic.monitors import Monitor
     dim = 2
-    if kind == 'L22':
-        s = LatticeSolver(dim, nbins=(2, 2))
-    elif kind == 'L21':
-        s = LatticeSolver(dim, nbins=(2, 1))
-    elif kind == 'B3':
+    if kind == 'B3':
         s = BuckshotSolver(dim, npts=3)
+    elif kind[0] == 'L' and kind[1:].isdigit() and len(kind) == 3:     # 'L22', 'L21', 'L33': bins per axis
+        s = LatticeSolver(dim, nbins=(int(kind[1]), int(kind[2])))
     else:
         raise KeyError(kind)
     s.SetNestedSolver(NelderMeadSimplexSolver if nested == 'NM' else PowellDirectionalSolver)
-    lo, hi = solverlab.box_of(cfg['box'], dim)
-    s.SetStrictRanges(list(lo), list(hi))
+    if cfg.get('box') is not None:
+        lo, hi = cfg['box'] if isinstance(cfg['box'], (list, tuple)) else solverlab.box_of(cfg['box'], dim)
+        s.SetStrictRanges(list(lo), list(hi))
     if cfg.get('con'):
         k, variant = (cfg['con'].split('/') + ['pure'])[:2]
         s.SetConstraints(solverlab.Con(k, variant == 'inplace'))
     if cfg.get('pen'):
         s.SetPenalty(solverlab.Pen(cfg['pen']))
-    s.SetEvaluationLimits(cfg['limits'][0], cfg['limits'][1])
+    if cfg.get('limits') is not None:      # None: the ensemble is never given limits, members keep their own defaults
+        s.SetEvaluationLimits(cfg['limits'][0], cfg['limits'][1])
     if cfg.get('evalmon'):
         s.SetEvaluationMonitor(Monitor())
     s.SetGenerationMonitor(Monitor())
-    t = solverlab.make_term(cfg.get('term', 'never'))
+    if cfg.get('term') == 'vtr8':
+        import mystic.termination as mt
+        t = mt.VTR(1e-8)
+    else:
+        t = solverlab.make_term(cfg.get('term', 'never'))
     if t is not None:
         s.SetTermination(t)
-    s.SetObjective(solverlab.Recorder(cfg['cost'], 50000))
+    s.SetObjective(solverlab.Recorder(cfg['cost'], 200000))
     if mapper is not None:
         s.SetMapper(mapper)
     return s
@@ -713,7 +717,7 @@ def _tuple_diff(names, a, b):
     return '?', 'differ'
 
 
-def ens_run(cfg, kind, nested, mode, mapper, max_steps=80):
+def ens_run(cfg, kind, nested, mode, mapper, max_steps=1500):
     """-> (result, deep, per-step trajectory (manual mode), number of ensemble steps)"""
     rng = env.SeededRandom(cfg['seed'])
     traj = []
@@ -735,6 +739,14 @@ def ens_run(cfg, kind, nested, mode, mapper, max_steps=80):
                         break
                     if n >= max_steps:
                         raise HarnessFault('manual Step loop did not stop within %d ensemble steps' % max_steps)
+            elif mode == 'whileterm':       # the documented idiom: termination is asked BEFORE the first Step
+                n = 0
+                while not s.Terminated():
+                    s.Step()
+                    n += 1
+                    traj.append((None, tuple(_member_obs(m) for m in s._allSolvers)))
+                    if n >= max_steps:
+                        raise HarnessFault('while not Terminated(): Step() did not stop within %d ensemble steps' % max_steps)
             else:
                 raise KeyError(mode)
         except (HarnessFault, baton.HarnessFault, tree.Diverged, KeyError):
@@ -784,23 +796,72 @@ def ens_reference(cfg, kind, nested):
     return {mode: ens_run(cfg, kind, nested, mode, None) for mode in MODES}
 
 
+STEPWISE = ('solvestep', 'manual', 'whileterm')
+
+
 def judge_modes(cfg, kind, nested, ref, T):
-    base = ref['solve'][0]
-    for mode in ('solvestep', 'manual'):
+    """the serial default in every drive mode: Solve() / Solve(step=True) / `while True: Step()` until a message /
+    `while not Terminated(): Step()` must agree in the result AND in every member's monitors, counters and call log"""
+    ref = dict(ref)
+    if 'whileterm' not in ref:
+        ref['whileterm'] = ens_run(cfg, kind, nested, 'whileterm', None)
+        T.count('traces'); T.count('transitions', len(ref['whileterm'][2]) + 1)
+    base, bdeep = ref['solve'][0], ref['solve'][1]
+    for mode in STEPWISE:
         T.count('C_mode_comparisons')
+        case = {'part': 'C', 'cfg': cfg, 'kind': kind, 'nested': nested, 'mode': mode, 'mapkind': 'python', 'fix': [], 'choices': [],
+                'max_preempt': 0}
         if ref[mode][0] != base:
             field, text = _tuple_diff(RESULT_FIELDS, ref[mode][0], base)
             T.violate({'part': 'C', 'clause': 'stepwise_vs_run_to_completion', 'ensemble': kind, 'nested': nested, 'mode': mode,
-                       'field': field},
-                      {'part': 'C', 'cfg': cfg, 'kind': kind, 'nested': nested, 'mode': mode, 'mapkind': 'python', 'fix': [], 'choices': [],
-                       'max_preempt': 0},
-                      '%s+%s: result in mode %s differs from Solve(): %s [cfg=%s]' % (kind, nested, mode, text, cfg))
-    if ref['solvestep'][1] != ref['manual'][1]:
-        field, text = _tuple_diff(DEEP_FIELDS, ref['solvestep'][1], ref['manual'][1])
-        T.violate({'part': 'C', 'clause': 'solve_step_vs_manual_loop', 'ensemble': kind, 'nested': nested, 'field': field},
-                  {'part': 'C', 'cfg': cfg, 'kind': kind, 'nested': nested, 'mode': 'manual', 'mapkind': 'python', 'fix': [], 'choices': [],
-                   'max_preempt': 0},
-                  '%s+%s: Solve(step=True) and the manual Step loop differ: %s [cfg=%s]' % (kind, nested, text, cfg))
+                       'field': field}, case,
+                      '%s+%s: result in drive mode %s differs from Solve(): %s (this mode vs Solve) [cfg=%s]' % (kind, nested, mode, text, cfg))
+        elif ref[mode][1] != bdeep:
+            field, text = _tuple_diff(DEEP_FIELDS, ref[mode][1], bdeep)
+            T.violate({'part': 'C', 'clause': 'stepwise_vs_run_to_completion_monitors', 'ensemble': kind, 'nested': nested, 'mode': mode,
+                       'field': field}, case,
+                      '%s+%s: member monitors / call logs in drive mode %s differ from Solve(): %s [cfg=%s]' % (kind, nested, mode, text, cfg))
+    res = ref['solve'][0]
+    if len(res) == 4:
+        gens = [m[4] for m in res[2]]
+        T.hist('C_member_generations_under_Solve', '%s/%s/%s:%s' % (cfg['name'], kind, nested, gens))
+        if min(gens) == 0 and max(gens) > 0:
+            T.count('C_configs_with_a_member_stopping_at_generation_0')
+        if cfg.get('limits') is None and max(gens) > 10 * 2:
+            T.count('C_configs_without_limits_needing_more_than_10nDim_member_iterations')
+
+
+def shard_modes(item):
+    """drive-mode comparison only (serial default map) for configurations that are too long for schedule exploration"""
+    cfg, kind, nested = item
+    T = Tally()
+    ref = ens_reference(cfg, kind, nested)
+    T.count('traces', 3); T.count('transitions', 3 + len(ref['manual'][2]))
+    judge_modes(cfg, kind, nested, ref, T)
+    T.hist('C_member_generations_at_stop', '%s/%s/%s:%s' % (cfg['name'], kind, nested, _stop_kinds(ref['manual'])))
+    T.state(('Cm', cfg['name'], kind, nested, digest(repr(ref['solve'][0]))))
+    T.nontriv(('Cm', cfg['name'], kind, nested))
+    T.sample({'part': 'C-modes', 'cfg': cfg, 'ensemble': kind, 'nested': nested, 'modes': ['solve'] + list(STEPWISE)}, 1)
+    return T
+
+
+def mode_cfgs(ctx):
+    """(configuration, ensemble kinds) judged across the drive modes only"""
+    sd = ctx.seed
+    out = [
+        # no SetEvaluationLimits on the ensemble, default termination: members run on their own default limits and need
+        # about 100 (NM) / 25 (Powell) iterations on rosen - far more than the ensemble's own default of 10*nDim
+        ({'name': 'C5', 'cost': 'rosen', 'box': 'unit', 'term': 'default', 'limits': None, 'evalmon': False, 'seed': 205 + 5 * sd},
+         ('L22', 'B3') if ctx.thorough else ('L22',)),
+        # 3x3 lattice whose centre cell starts on the optimum of the sphere cost: that member meets VTR(1e-8) at generation 0
+        # while the other eight need ~30 more ensemble steps
+        ({'name': 'C6', 'cost': 'sphere', 'box': [[-0.7, -0.4], [1.3, 1.6]], 'term': 'vtr8', 'limits': [80, None], 'evalmon': True,
+          'seed': 206 + 5 * sd}, ('L33',)),
+    ]
+    if ctx.thorough:
+        out.append(({'name': 'C7', 'cost': 'sphere', 'box': [[-0.7, -0.4], [1.3, 1.6]], 'term': 'vtr8', 'limits': None, 'evalmon': False,
+                     'seed': 207 + 5 * sd}, ('L33', 'L21')))
+    return out
 
 
 def shard_ens(item):
@@ -868,7 +929,7 @@ def _stop_kinds(ref):
 def _dispatch(item):
     kind, payload = item
     try:
-        return {'Ad': shard_diamond, 'Ap': shard_perms, 'B': shard_de2, 'C': shard_ens}[kind](payload)
+        return {'Ad': shard_diamond, 'Ap': shard_perms, 'B': shard_de2, 'C': shard_ens, 'Cm': shard_modes}[kind](payload)
     finally:
         d = os.path.join(tempfile.gettempdir(), 'verif-c07-%d' % os.getpid())
         if os.path.isdir(d):
@@ -993,6 +1054,11 @@ def plan(ctx):
                     cplan.append((cfg, kind, nested, 'solve', 'threads', None, mp, tf))
                 bt = 2 if th else 1
                 cplan.append((cfg, kind, nested, 'manual' if nested == 'NM' else 'solvestep', 'threads', bt, 1, _fixes(n, bt)))
+    for cfg, mkinds in mode_cfgs(ctx):
+        for kind in mkinds:
+            for nested in ('NM', 'Powell'):
+                items.append(('Cm', (cfg, kind, nested)))
+    info['C drive-mode-only configurations'] = [(c['name'], list(k)) for c, k in mode_cfgs(ctx)]
     first = set()
     for cfg, kind, nested, mode, mapkind, bound, mp, fixes in cplan:
         for fix in fixes:
@@ -1009,22 +1075,23 @@ def run(ctx):
     items, info, active_tab = plan(ctx)
     if parts:
         items = [it for it in items if it[0][0] in parts.split(',')]
-    mk = os.environ.get('VERIF_C07_MAPKIND')        # development aid: restrict part C to one kind of map
+    mk = os.environ.get('VERIF_C07_MAPKIND')        # development aid: restrict part C to one kind of map ('modes': the drive-mode shards)
     if mk:
-        items = [it for it in items if it[0] != 'C' or it[1][4] == mk]
+        items = [it for it in items if it[0] not in ('C', 'Cm') or (it[0] == 'C' and it[1][4] == mk) or (it[0] == 'Cm' and mk == 'modes')]
     # heavy shards first (better packing on the pool)
-    order = {'C': 0, 'B': 1, 'Ad': 2, 'Ap': 3}
+    order = {'Cm': 0, 'C': 0, 'B': 1, 'Ad': 2, 'Ap': 3}
     items.sort(key=lambda it: order[it[0]])
     ctx.bounds = {'A_calls_quick': list(CALLS_Q), 'A_calls_thorough': list(CALLS_T), 'A_steps': NSTEPS,
                   'A_variants': variants(ctx), 'A_diamonds_per_lattice': info, 'A_calls_that_change_the_run': active_tab,
-                  'B_configs': de2_cfgs(ctx), 'C_configs': ens_cfgs(ctx), 'ensembles': ['Lattice(2,1)', 'Buckshot(3)', 'Lattice(2,2)'],
+                  'B_configs': de2_cfgs(ctx), 'C_configs': ens_cfgs(ctx), 'C_drive_mode_configs': [dict(c, ensembles=list(k)) for c, k in mode_cfgs(ctx)],
+                  'C_drive_modes': ['Solve()', 'Solve(step=True)', 'while True: msg = Step() until msg', 'while not Terminated(): Step()'], 'ensembles': ['Lattice(2,1)', 'Buckshot(3)', 'Lattice(2,2)'],
                   'nested': ['NelderMeadSimplexSolver', 'PowellDirectionalSolver'], 'shards': len(items)}
     ctx.rule = ("(A) every diamond (U, a, b) of the configuration-call lattice and every literal order of a smaller call set, each executed "
                 "on a fresh real solver and followed by 6 Steps; a diamond is non-trivial when leaving out a and leaving out b each changes the "
                 "observable run of that variant (measured, see A_calls_that_change_the_run). (B) every evaluation order of the 4 DE2 work items "
                 "per map call within the deviation bound, sharing and dill-copying map; (C) every member order per map call (deviation bound "
                 "across calls), Solve / Solve(step=True) / manual Step loop, sharing / copying map, and every baton-thread schedule with hand-offs "
-                "at member Step boundaries within the preemption bound. In (B),(C) a schedule is non-trivial when it differs from the serial order. "
+                "at member Step boundaries within the preemption bound; under the serial default map the four drive modes (C_drive_modes) are compared in result, per-member counters, monitors and call logs on every configuration, including one without any evaluation limits whose members need far more than 10*nDim iterations and one with a member that terminates at generation 0. In (B),(C) a schedule is non-trivial when it differs from the serial order. "
                 "states = distinct (configuration, outcome digest) pairs: the *_digest_by_config histograms must show one digest per configuration.")
     ctx.assumptions = ["the copying map (dill copies of function, arguments and results) stands in for a process pool; real OS scheduling is not explored",
                        "thread schedules are explored at member-Step granularity (one thread runs at a time)",
